@@ -7,6 +7,7 @@
 #include <nitro/lang/string.hpp>
 
 #include <cxxabi.h>
+#include <iterator>
 #include <list>
 
 using namespace drv;
@@ -79,6 +80,22 @@ int main()
                     v.push_back(std::atol(w[i].c_str()));
                 out("J ok " + hex(nitro::lang::join(v.begin(), v.end(), unhex(w[1]))) + " " +
                     hex(nitro::lang::join(v.begin(), v.end(), unhex(w[1]))));
+            }
+            else if (c == "JOINS")
+            {
+                // JOINS <infix> <elems...>: the range is read through single-pass input iterators
+                // (std::istream_iterator); elements are non-empty and free of white space
+                std::string text;
+                for (std::size_t i = 2; i < w.size(); ++i)
+                    text += unhex(w[i]) + " ";
+                std::istringstream in1(text), in2(text);
+                auto a = nitro::lang::join(std::istream_iterator<std::string>(in1), std::istream_iterator<std::string>(),
+                                           unhex(w[1]));
+                std::list<std::string> lst;
+                for (std::size_t i = 2; i < w.size(); ++i)
+                    lst.push_back(unhex(w[i]));
+                auto b = nitro::lang::join(lst.begin(), lst.end(), unhex(w[1])); // bidirectional iterators
+                out("J ok " + hex(a) + " " + hex(b));
             }
             else if (c == "REPL")
             {
